@@ -3,6 +3,7 @@ from __future__ import annotations
 
 from ..universe import graphs as U
 from . import eqcommon as E
+from . import histories as H
 
 PROP = "C01"
 RULE = ("every spec of the bounded universes (all iso classes of MolGraph n<=4 over {C,H,O}, reaction graphs n<=3 with "
@@ -12,16 +13,18 @@ RULE = ("every spec of the bounded universes (all iso classes of MolGraph n<=4 o
         "transpositions), injection into a pool with negative/huge ids, atom/bond/descriptor insertion orders, every "
         "rewriting of every descriptor through every proper (same parity) and improper (opposite parity) symmetry "
         "element, library relabel_atoms copy/in-place.  Oracle: G==G', G'==G, is_isomorphic, reflexivity must all be True. "
-        "distinct = distinct (spec, variant) pairs with variant != spec")
+        "Histories: every sequence of <=2 (thorough <=3) public mutator calls (22-43 per class) after 2-4 roots per class "
+        "on a stereo-valid 14-atom skeleton, graph hashed and compared after every call, then G == freshly built twin both ways. "
+        "distinct = distinct (spec, variant) pairs with variant != spec + histories")
 ASSUMPTIONS = ["variants are constructed with refgraph/refstereo only (no library code)",
                "an exception raised by == counts as 'not equal'",
                "stereo-valid graphs only (descriptors over the centre and exactly its bonded neighbours)"]
-BUDGET = {"quick": 200, "thorough": 1500}
+BUDGET = {"quick": 600, "thorough": 1500}
 
 
 def items(tier, seed):
     E.universes(tier)  # build once in the parent; forked workers share it
-    return [dict(c, tier=tier, seed=seed) for c in E.chunks(tier, 4)]
+    return [dict(c, tier=tier, seed=seed) for c in E.chunks(tier, 4)] + H.items(tier)
 
 
 def _eq(a, b):
@@ -33,9 +36,11 @@ def _eq(a, b):
 
 
 def run_item(item):
+    out = {"evals": 0, "distinct": 0, "outcomes": {}, "viol": [], "samples": []}
+    if item.get("part") == "history":
+        return H.run(item, out, PROP)
     tier, seed = item["tier"], item["seed"]
     specs = E.universes(tier)[item["u"]][item["lo"]:item["hi"]]
-    out = {"evals": 0, "distinct": 0, "outcomes": {}, "viol": [], "samples": []}
     oc = out["outcomes"]
 
     def V(m, vt, clause, what, m2=None):
